@@ -23,8 +23,9 @@ else:
 
 def sid_of(c):
     b = os.path.basename(c)
-    if ROUND5:
-        return b
+    if ROUND5:   # three agents used the same suffixes: M21 keeps j/k, M22 -> l/m, M23 -> n/o
+        shift = {'M21': 0, 'M22': 2, 'M23': 4}[c.split('/')[2].split('_')[0]]
+        return b[:-1] + chr(ord(b[-1]) + shift)
     if ROUND4:
         b = b[:-1] + {'a': 'h', 'b': 'i'}[b[-1]]
     elif ROUND3:
